@@ -8,7 +8,9 @@ import (
 	"fmt"
 	"hash/fnv"
 	"io"
+	"runtime"
 	"strings"
+	"time"
 
 	"github.com/a-h/templ"
 	"github.com/a-h/templ/zzverif/kernel"
@@ -112,8 +114,25 @@ func (e *Env) point(kind, key string) bool {
 		e.Hook(kind, key)
 	}
 	if i == e.CancelAt && e.Cancel != nil {
+		// Cancellation may start goroutines in the code under test (context.AfterFunc and the
+		// like). They are outside the scheduler, so they are given the chance to finish before
+		// this task goes on: wait, bounded, until the goroutine count is back where it was. The
+		// unchanged tree starts none, so nothing is waited for there.
+		before := runtime.NumGoroutine()
 		e.Cancel()
 		e.Cancelled = true
+		for n := 0; n < 200; n++ {
+			runtime.Gosched()
+			if n >= 2 && runtime.NumGoroutine() <= before {
+				break
+			}
+			if n >= 20 {
+				time.Sleep(20 * time.Microsecond)
+			}
+		}
+		if e.Hook != nil {
+			e.Hook("cancelled", key)
+		}
 	}
 	if i == e.FailAt {
 		e.FailedK = key
